@@ -18,9 +18,9 @@ import (
 	"google.golang.org/grpc"
 	"google.golang.org/grpc/codes"
 	"google.golang.org/grpc/status"
-	"google.golang.org/protobuf/reflect/protoreflect"
 	"google.golang.org/protobuf/encoding/protojson"
 	"google.golang.org/protobuf/proto"
+	"google.golang.org/protobuf/reflect/protoreflect"
 	"google.golang.org/protobuf/types/dynamicpb"
 	"larking.io/larking"
 	"pgregory.net/rapid"
@@ -137,7 +137,27 @@ func CheckWS(c Case) []evid.Violation {
 	}
 	closed := false
 	for i, m := range c.Msgs {
-		if err := wsutil.WriteClientMessage(conn, ws.OpText, toJSON(w, m)); err != nil {
+		var err error
+		if js := toJSON(w, m); c.WSFrag > 0 && len(js) > c.WSFrag {
+			// one message as a FIN=0 frame followed by continuation frames
+			for off := 0; err == nil; off += c.WSFrag {
+				end, op := off+c.WSFrag, ws.OpContinuation
+				if off == 0 {
+					op = ws.OpText
+				}
+				fin := end >= len(js)
+				if fin {
+					end = len(js)
+				}
+				err = ws.WriteFrame(conn, ws.MaskFrameInPlaceWith(ws.NewFrame(op, fin, append([]byte{}, js[off:end]...)), ws.NewMask()))
+				if fin {
+					break
+				}
+			}
+		} else {
+			err = wsutil.WriteClientMessage(conn, ws.OpText, js)
+		}
+		if err != nil {
 			return []evid.Violation{evid.V("ws-write", "ws:write", "write %d: %v", i, err)}
 		}
 		if c.PingPong && i < len(c.Replies) {
@@ -226,15 +246,22 @@ func TestPropWS(t *testing.T) {
 			c.FinalCode = rapid.SampledFrom([]int{3, 5, 9, 13}).Draw(t, "code")
 			c.FinalMsg = "scripted failure"
 		}
+		if rapid.IntRange(0, 2).Draw(t, "fragmented") == 0 {
+			c.WSFrag = rapid.SampledFrom([]int{1, 2, 5, 16, 100}).Draw(t, "wsFrag")
+		}
 		vs := CheckWS(c)
 		key := ""
 		if n >= 2 || m >= 2 {
-			key = fmt.Sprintf("ws|%d|%d|%v|%d", n, m, c.PingPong, c.FinalCode)
+			key = fmt.Sprintf("ws|%d|%d|%v|%d|%d", n, m, c.PingPong, c.FinalCode, c.WSFrag)
 			for _, x := range c.Msgs {
 				key += fmt.Sprintf("|%d", len(x))
 			}
 		}
-		evid.Eval(key, "transport=ws", "shape=bidi")
+		if c.WSFrag > 0 {
+			evid.Eval(key, "transport=ws", "shape=bidi", "ws-fragmented")
+		} else {
+			evid.Eval(key, "transport=ws", "shape=bidi")
+		}
 		evid.Sample("ws/bidi", map[string]any{"brief": brief(c, -1), "replies": m, "final_code": c.FinalCode})
 		evid.Report(t, prop, c, vs)
 	})
